@@ -34,13 +34,14 @@ type RegWorld struct {
 	open    map[string]*regStore // registered stores by name (in-memory: until CloseAndDelete)
 	disk    map[string]string    // url -> persisted data ("\x00" = exists, no data); absent = no directory
 	hasDisk map[string]bool
+	diskGen map[string]int // generation of the store that owns the directory
 	gen     int
 	step    int
 }
 
 func init() {
 	RegisterWorld("registry", func(cfg Config) GenWorld {
-		return &RegWorld{cfg: cfg, open: map[string]*regStore{}, disk: map[string]string{}, hasDisk: map[string]bool{}}
+		return &RegWorld{cfg: cfg, open: map[string]*regStore{}, disk: map[string]string{}, hasDisk: map[string]bool{}, diskGen: map[string]int{}}
 	})
 }
 
@@ -114,6 +115,7 @@ func (w *RegWorld) Apply(op string) (string, []Violation) {
 			if u != "mem" {
 				st.data = w.disk[u]
 				w.hasDisk[u] = true
+				w.diskGen[u] = st.gen
 			}
 			w.open[name] = st
 		}
@@ -145,8 +147,20 @@ func (w *RegWorld) Apply(op string) (string, []Violation) {
 				return "skip", nil // deleting through a handle of an already deleted bucket: spec-silent
 			}
 			st := w.open[h.name]
+			if st == nil && h.url != "mem" && w.hasDisk[h.url] && w.diskGen[h.url] == h.store {
+				// the on-disk bucket this handle belonged to was shut down by its last Close and nobody has
+				// touched the directory since: CloseAndDelete through the (closed) handle still removes the data
+				if err := h.b.CloseAndDelete(ctx); err != nil {
+					c.add("C13", "delete.outcome", "CloseAndDelete returned %v", err)
+				}
+				h.state = "dead"
+				delete(w.disk, h.url)
+				delete(w.hasDisk, h.url)
+				result = "ok"
+				break
+			}
 			if st == nil || st.gen != h.store {
-				return "skip", nil // handle of a store that was shut down and possibly re-created: spec-silent
+				return "skip", nil // handle of a store that was re-created or replaced: spec-silent
 			}
 			err := h.b.CloseAndDelete(ctx)
 			if err != nil {
